@@ -35,44 +35,44 @@ States == {"INIT", "ESC", "G0SCS", "G1SCS", "GRAPHICS_POUND", "ELB", "MODECRAP",
            "NUMBER_1", "SEMICOLON", "NUMBER_2", "SEMICOLON_X", "NUMBER_X"}
 
 (* ------------------------- the transition table -------------------------- *)
-T(syms, st, act, nxt) == [p \in {<<s, st>> : s \in syms} |-> [act |-> act, nxt |-> nxt]]
+TT(syms, st, act, nxt) == [p \in {<<s, st>> : s \in syms} |-> [act |-> act, nxt |-> nxt]]
 
 ExactT ==
-     T({"ESC"}, "INIT", "None", "ESC")
-  @@ T({"("}, "ESC", "None", "G0SCS") @@ T({")"}, "ESC", "None", "G1SCS")
-  @@ T({"A", "B", "0", "1", "2"}, "G0SCS", "None", "INIT")
-  @@ T({"A", "B", "0", "1", "2"}, "G1SCS", "None", "INIT")
-  @@ T({"7"}, "ESC", "CursorSave", "INIT") @@ T({"8"}, "ESC", "CursorRestore", "INIT")
-  @@ T({"M", ">", "<"}, "ESC", "UpReverse", "INIT")
-  @@ T({"="}, "ESC", "None", "INIT")
-  @@ T({"#"}, "ESC", "None", "GRAPHICS_POUND")
-  @@ T({"["}, "ESC", "None", "ELB")
-  @@ T({"H"}, "ELB", "HomeOrigin", "INIT") @@ T({"D"}, "ELB", "BackOne", "INIT")
-  @@ T({"B"}, "ELB", "DownOne", "INIT") @@ T({"C"}, "ELB", "ForwardOne", "INIT")
-  @@ T({"A"}, "ELB", "UpOne", "INIT") @@ T({"J"}, "ELB", "EraseDown", "INIT")
-  @@ T({"K"}, "ELB", "EraseEndOfLine", "INIT") @@ T({"r"}, "ELB", "EnableScroll", "INIT")
-  @@ T({"m"}, "ELB", "Reset", "INIT") @@ T({"?"}, "ELB", "None", "MODECRAP")
-  @@ T(Digits, "ELB", "StartNumber", "NUMBER_1")
-  @@ T(Digits, "NUMBER_1", "BuildNumber", "NUMBER_1")
-  @@ T({"D"}, "NUMBER_1", "Back", "INIT") @@ T({"B"}, "NUMBER_1", "Down", "INIT")
-  @@ T({"C"}, "NUMBER_1", "Forward", "INIT") @@ T({"A"}, "NUMBER_1", "Up", "INIT")
-  @@ T({"J"}, "NUMBER_1", "Erase", "INIT") @@ T({"K"}, "NUMBER_1", "EraseLine", "INIT")
-  @@ T({"l"}, "NUMBER_1", "Mode", "INIT")
-  @@ T({"m", "q"}, "NUMBER_1", "Reset", "INIT")
-  @@ T(Digits, "MODECRAP", "StartNumber", "MODECRAP_NUM")
-  @@ T(Digits, "MODECRAP_NUM", "BuildNumber", "MODECRAP_NUM")
-  @@ T({"l", "h"}, "MODECRAP_NUM", "Reset", "INIT")
-  @@ T({";"}, "NUMBER_1", "None", "SEMICOLON")
-  @@ T(Digits, "SEMICOLON", "StartNumber", "NUMBER_2")
-  @@ T(Digits, "NUMBER_2", "BuildNumber", "NUMBER_2")
-  @@ T({"H", "f"}, "NUMBER_2", "Home", "INIT")
-  @@ T({"r"}, "NUMBER_2", "ScrollRegion", "INIT")
-  @@ T({"m", "q"}, "NUMBER_2", "Reset", "INIT")
-  @@ T({";"}, "NUMBER_2", "None", "SEMICOLON_X")
-  @@ T(Digits, "SEMICOLON_X", "StartNumber", "NUMBER_X")
-  @@ T(Digits, "NUMBER_X", "BuildNumber", "NUMBER_X")
-  @@ T({"m", "q"}, "NUMBER_X", "Reset", "INIT")
-  @@ T({";"}, "NUMBER_X", "None", "SEMICOLON_X")
+     TT({"ESC"}, "INIT", "None", "ESC")
+  @@ TT({"("}, "ESC", "None", "G0SCS") @@ TT({")"}, "ESC", "None", "G1SCS")
+  @@ TT({"A", "B", "0", "1", "2"}, "G0SCS", "None", "INIT")
+  @@ TT({"A", "B", "0", "1", "2"}, "G1SCS", "None", "INIT")
+  @@ TT({"7"}, "ESC", "CursorSave", "INIT") @@ TT({"8"}, "ESC", "CursorRestore", "INIT")
+  @@ TT({"M", ">", "<"}, "ESC", "UpReverse", "INIT")
+  @@ TT({"="}, "ESC", "None", "INIT")
+  @@ TT({"#"}, "ESC", "None", "GRAPHICS_POUND")
+  @@ TT({"["}, "ESC", "None", "ELB")
+  @@ TT({"H"}, "ELB", "HomeOrigin", "INIT") @@ TT({"D"}, "ELB", "BackOne", "INIT")
+  @@ TT({"B"}, "ELB", "DownOne", "INIT") @@ TT({"C"}, "ELB", "ForwardOne", "INIT")
+  @@ TT({"A"}, "ELB", "UpOne", "INIT") @@ TT({"J"}, "ELB", "EraseDown", "INIT")
+  @@ TT({"K"}, "ELB", "EraseEndOfLine", "INIT") @@ TT({"r"}, "ELB", "EnableScroll", "INIT")
+  @@ TT({"m"}, "ELB", "Reset", "INIT") @@ TT({"?"}, "ELB", "None", "MODECRAP")
+  @@ TT(Digits, "ELB", "StartNumber", "NUMBER_1")
+  @@ TT(Digits, "NUMBER_1", "BuildNumber", "NUMBER_1")
+  @@ TT({"D"}, "NUMBER_1", "Back", "INIT") @@ TT({"B"}, "NUMBER_1", "Down", "INIT")
+  @@ TT({"C"}, "NUMBER_1", "Forward", "INIT") @@ TT({"A"}, "NUMBER_1", "Up", "INIT")
+  @@ TT({"J"}, "NUMBER_1", "Erase", "INIT") @@ TT({"K"}, "NUMBER_1", "EraseLine", "INIT")
+  @@ TT({"l"}, "NUMBER_1", "Mode", "INIT")
+  @@ TT({"m", "q"}, "NUMBER_1", "Reset", "INIT")
+  @@ TT(Digits, "MODECRAP", "StartNumber", "MODECRAP_NUM")
+  @@ TT(Digits, "MODECRAP_NUM", "BuildNumber", "MODECRAP_NUM")
+  @@ TT({"l", "h"}, "MODECRAP_NUM", "Reset", "INIT")
+  @@ TT({";"}, "NUMBER_1", "None", "SEMICOLON")
+  @@ TT(Digits, "SEMICOLON", "StartNumber", "NUMBER_2")
+  @@ TT(Digits, "NUMBER_2", "BuildNumber", "NUMBER_2")
+  @@ TT({"H", "f"}, "NUMBER_2", "Home", "INIT")
+  @@ TT({"r"}, "NUMBER_2", "ScrollRegion", "INIT")
+  @@ TT({"m", "q"}, "NUMBER_2", "Reset", "INIT")
+  @@ TT({";"}, "NUMBER_2", "None", "SEMICOLON_X")
+  @@ TT(Digits, "SEMICOLON_X", "StartNumber", "NUMBER_X")
+  @@ TT(Digits, "NUMBER_X", "BuildNumber", "NUMBER_X")
+  @@ TT({"m", "q"}, "NUMBER_X", "Reset", "INIT")
+  @@ TT({";"}, "NUMBER_X", "None", "SEMICOLON_X")
 
 AnyT == [s \in {"INIT"} |-> [act |-> "Emit", nxt |-> "INIT"]]
     @@ [s \in {"ESC", "SEMICOLON", "NUMBER_2", "SEMICOLON_X", "NUMBER_X"} |-> [act |-> "Log", nxt |-> "INIT"]]
